@@ -260,7 +260,7 @@ Proof.
     destruct (v_sns i _ Hl) as [_ [_ [_ [_ [_ [_ S7]]]]]]. specialize (S7 eq_refl).
     destruct v_nrel as [N1 N2]. destruct (release_to_spec (segs s) (nrel s) i N1) as [A [B|B]].
     - rewrite B. vinv_split HV.
-    - vinv_split HV; [split; lia | intros Hw; specialize (v_pgwal Hw); lia]. }
+    - vinv_split HV; [split; lia | destruct v_pgwal as [Pw Pr]; split; [intros Hw; specialize (Pw Hw); lia | exact Pr]]. }
   apply (vinv_sn_pc c _ hi i SnSynced SnReleased HV'); auto; try discriminate.
 Qed.
 
@@ -344,7 +344,7 @@ Proof.
   - (* wal *)
     exists hi. split; [pframe s|].
     unfold running in *. proj. destruct (rc s) eqn:R; try discriminate.
-    vinv_split HV. intros _.
+    vinv_split HV. destruct v_pgwal as [Pw Pr]. split; [intros _|exact Pr].
     match goal with G : _ && _ = true |- _ => apply andb_true_iff in G; destruct G as [_ G]; apply Nat.ltb_lt in G; exact G end.
   - (* snap *)
     exists hi. split; [pframe s|].
@@ -393,7 +393,7 @@ Proof.
   - (* wal: the oldest segment goes *)
     unfold running in *. proj. destruct (rc s) eqn:R; try (not_running HV).
     pose proof HV as HV0. destruct HV0 as [_ _ v_nrel _ _ _ _ _ _ _ _ _ _ _ v_pgwal _].
-    match goal with G : pg_wal s = true |- _ => specialize (v_pgwal G) end.
+    destruct v_pgwal as [v_pgwal Prs]. match goal with G : pg_wal s = true |- _ => specialize (v_pgwal G) end.
     destruct v_nrel as [N1 N2].
     assert (Hex : exists x y t, segs s = x :: y :: t).
     { destruct (segs s) as [|x [|y t]]; simpl in N1; try lia. eauto. }
@@ -415,7 +415,7 @@ Proof.
       change (nth (S n') (x :: y :: t) (mkSeg 0 [])) with (nth n' (y :: t) (mkSeg 0 [])) in N2. exact N2.
     + intros i p Hl. destruct (v_sns i p Hl) as [S1 [S2 [S3 [S4 [S5 [S6 S7]]]]]].
       repeat split; auto. intros Hb Hin. apply (S4 Hb). apply Hmk'. exact Hin.
-    + intros; discriminate.
+    + split; [intros; discriminate | exact Prs].
   - (* snap: the file chosen at "before" goes *)
     unfold running in *. proj. destruct (rc s) eqn:R; try (not_running HV).
     pose proof HV as HV0. destruct HV0 as [_ _ _ _ _ _ _ _ _ _ _ _ _ v_pgsnap _ _].
